@@ -285,6 +285,65 @@ def random_worker(job):
     return st
 
 
+def pair_worker(job):
+    """One expression containing the SAME pattern text in a case-sensitive and in a case-folding test (find . -iname readme ! -name
+    readme): each test keeps its own case handling whatever stands before it."""
+    k, npat, seed = job
+    st = Stats()
+    rng = common.rng_for(seed, "C12pair", k)
+    base = common.mkscratch("C12p%d" % k)
+    try:
+        lines, meta = [], {}
+        for i in range(npat):
+            pat, items = rand_pattern(rng)
+            cs, ci = rng.choice([("-name", "-iname"), ("-path", "-ipath"), ("-name", "-iname"), ("-wholename", "-iwholename")])
+            subs = set()
+            for _ in range(5):
+                s0 = sample_subject(rng, items)
+                subs |= {s0, s0.swapcase(), s0.upper(), s0.lower(), mutate_subject(rng, s0)}
+            usable = [(s_, subject_path(cs, s_)) for s_ in sorted(subs) if "\0" not in s_]
+            usable = [(s_, p_) for s_, p_ in usable if p_ is not None]
+            if not usable:
+                continue
+            form = rng.choice(["cs-or-ci", "ci-or-cs", "ci-and-not-cs", "cs-and-not-ci", "not-cs-and-ci"])
+            args = {"cs-or-ci": [cs, pat, "-o", ci, pat], "ci-or-cs": [ci, pat, "-o", cs, pat], "ci-and-not-cs": [ci, pat, "!", cs, pat],
+                    "cs-and-not-ci": [cs, pat, "!", ci, pat], "not-cs-and-ci": ["!", cs, pat, ci, pat]}[form]
+            cid = "p%d" % i
+            meta[cid] = (pat, cs, ci, form, args, [s_ for s_, _ in usable])
+            lines.append("\t".join([cid, "P", "1", str(len(args))] + [common.hx(a) for a in args] + [common.hx(p_) for _, p_ in usable]))
+        res = common.run_vh("match", lines, base, cwd=base, per_case_timeout=60)
+        for cid, (pat, cs, ci, form, args, subs) in meta.items():
+            r = res.get(cid)
+            if r is None or r[0] in ("HANG", "CRASH", "panic"):
+                row_chk = oracle_row(pat, subs, False)
+                if row_chk is not None:
+                    st.violate("panic" if r and r[0] == "panic" else "hang-or-crash", None, {"args": args, "result": r}, {"args": args})
+                continue
+            if r[0] != "ok":
+                continue                                   # rejected patterns are the single-test workloads' business
+            row_s, row_i = oracle_row(pat, subs, False), oracle_row(pat, subs, True)
+            if row_s is None or row_i is None:
+                st.inc("out_of_domain_patterns")
+                continue
+            st.inc("pair_expressions")
+            st.inc("pair_form:" + form)
+            for s_, ws, wi, b in zip(subs, row_s, row_i, r[2]):
+                if ws is None or wi is None:
+                    st.inc("out_of_domain_pairs")
+                    continue
+                want = {"cs-or-ci": ws or wi, "ci-or-cs": wi or ws, "ci-and-not-cs": wi and not ws, "cs-and-not-ci": ws and not wi,
+                        "not-cs-and-ci": (not ws) and wi}[form]
+                st.inc("evaluations")
+                if ws != wi:
+                    st.inc("pair_evaluations_where_the_two_modes_differ")
+                if (b == "1") != want:
+                    st.violate("fnmatch-mismatch", None, {"args": args, "subject": s_, "case_sensitive_fnmatch": ws, "case_folding_fnmatch": wi,
+                                                          "expected": want, "find": b == "1"}, {"args": args, "subject": s_})
+    finally:
+        common.force_rmtree(base)
+    return st
+
+
 def lname_worker(job):
     """-lname/-ilname on real symbolic links whose target text is the subject; also checks that the subject is the
     target and not the link's own name, and runs the same patterns through the find binary with -name on real files."""
@@ -503,6 +562,8 @@ def run(ctx):
     ctx.pmap(random_worker, [(k, nrand // nw, ctx.seed) for k in range(nw)])
     nl = ctx.scale(320, 8000)
     ctx.pmap(lname_worker, [(k, nl // nw, ctx.seed) for k in range(nw)])
+    ctx.pmap(pair_worker, [(k, ctx.scale(100, 6000), ctx.seed) for k in range(nw)])
+    ctx.require("pair_evaluations_where_the_two_modes_differ", 50)
     ctx.pmap(raw_name_worker, [(k, ctx.scale(6, 400), ctx.seed) for k in range(nw)])
     ctx.require("raw_members", 20)
     ctx.require("raw_non_members", 20)
